@@ -68,6 +68,7 @@ type Case struct {
 	Lim    string // RA/CB: "-" or the io.LimitReader bound
 	Ops    []string
 	Pushes []Push
+	Obs    string // CC: the observed outcome handed to the model for the membership test
 }
 
 func encScript(s []Ev) string {
@@ -276,7 +277,11 @@ func (c *Case) body() string {
 func (c *Case) line() string {
 	b := c.body()
 	i := strings.IndexByte(b, ' ')
-	return b[:i] + " " + c.hashes() + b[i:]
+	l := b[:i] + " " + c.hashes() + b[i:]
+	if c.Obs != "" {
+		l += " OBS " + c.Obs
+	}
+	return l
 }
 
 func atoi(s string) int64 {
@@ -860,6 +865,17 @@ func runCC(id string, c *Case) string {
 			fail(id, "concurrent-listing", "stored blobs after concurrent pushes: "+joinListing(l), c)
 		}
 	}
+	if c.Kind == "oci" && len(c.Pushes) <= 3 && len(want) <= 120 {
+		// trace correspondence: the observed outcome must be a terminal outcome of the
+		// model's transition system (the model answers MEMBER)
+		res := make([]string, len(errs))
+		for i, e := range errs {
+			res[i] = errEnum(e)
+		}
+		c.Obs = fmt.Sprintf("%s %s I=%d", strings.Join(res, ","), joinListing(e.listing()), e.ingest())
+		run.TracesAgainstImpl++
+		return "MEMBER"
+	}
 	return "-"
 }
 
@@ -1384,11 +1400,16 @@ func genBig(r *common.Rand, kind string) *Case {
 }
 
 func genConcurrent(r *common.Rand, kind string) *Case {
-	data := randBytes(r, 1+r.Intn(3000))
+	size := 1 + r.Intn(3000)
+	n := 1 + r.Intn(4)
+	if kind == "oci" && r.Chance(2, 3) { // small enough for the model's exhaustive interleaving
+		n = 1 + r.Intn(2)
+		size = 1 + r.Intn(120)
+	}
+	data := randBytes(r, size)
 	good := Push{MT: mediaTypes[0], DG: digestFor("sha256", data), SZ: int64(len(data))}
 	good.Script = chunk(r, data, false)
 	c := &Case{Op: "CC", Kind: kind, Pushes: []Push{good}}
-	n := 1 + r.Intn(4)
 	for i := 0; i < n; i++ {
 		p := good
 		p.Comb = r.Bool()
